@@ -34,6 +34,11 @@ class Box(object):
     """a plain object with attributes (importable, so jsonpickle restores it)"""
 
 
+class BoxError(Exception):
+    """an exception carrying mutable state in attributes (the serializer keeps the attributes and drops the arguments); an
+    intercepted input whose value is one of these RAISES it, the operation catches it and may mutate what it carries"""
+
+
 # ------------------------------------------------------------------------------------------------------------------
 # trees  <->  Python values
 # ------------------------------------------------------------------------------------------------------------------
@@ -61,7 +66,7 @@ def to_py(t):
         return set(cs)
     if k == 'dict':
         return dict(zip(ls, cs))
-    b = Box()
+    b = BoxError() if k == 'obj:BoxError' else Box()
     for name, v in zip(ls, cs):
         setattr(b, name, v)
     return b
@@ -92,10 +97,17 @@ def from_py(v, _stack=()):
     if isinstance(v, dict):
         ks = sorted(v)
         return {'k': 'dict', 'l': list(ks), 'c': [from_py(v[k], st) for k in ks]}
-    if isinstance(v, Box):
+    if isinstance(v, (Box, BoxError)):
         ks = sorted(v.__dict__)
-        return {'k': 'obj:Box', 'l': list(ks), 'c': [from_py(v.__dict__[k], st) for k in ks]}
+        return {'k': 'obj:Box' if isinstance(v, Box) else 'obj:BoxError', 'l': list(ks), 'c': [from_py(v.__dict__[k], st) for k in ks]}
     return {'a': 's:<%s>' % type(v).__name__}
+
+
+def norm_env(t):
+    """the envelope of an input that raised is {'exception': ex}; the heap model knows one envelope shape, {'value': v}"""
+    if isinstance(t, dict) and t.get('k') == 'dict' and t.get('l') == ['exception']:
+        return dict(t, l=['value'])
+    return t
 
 
 def canon_tree(t):
@@ -137,7 +149,9 @@ def navigate(obj, path):
         else:
             if isinstance(obj, dict) and e['k'] in obj:
                 obj = obj[e['k']]
-            elif isinstance(obj, Box) and e['k'] in obj.__dict__:
+            elif isinstance(obj, dict) and e['k'] == 'value' and set(obj) == {'exception'}:
+                obj = obj['exception']          # the envelope of an input that raised: {'exception': ex}
+            elif isinstance(obj, (Box, BoxError)) and e['k'] in obj.__dict__:
                 obj = obj.__dict__[e['k']]
             else:
                 return False, None
@@ -188,7 +202,7 @@ def apply_edit(variables, step):
             obj[key['k']] = val
             return True
         return False
-    if name == 'setattr' and has_x and key is not None and 'k' in key and isinstance(obj, Box):
+    if name == 'setattr' and has_x and key is not None and 'k' in key and isinstance(obj, (Box, BoxError)):
         setattr(obj, key['k'], val)
         return True
     if name == 'delitem' and key is not None and 'k' in key and isinstance(obj, dict) and key['k'] in obj:
@@ -258,6 +272,11 @@ class C11(Prop):
         cs.insert(rng.randint(0, len(cs)), self.rand_tree(rng, 1, mutable_top=True))
         return {'k': 'tuple', 'l': [], 'c': cs}
 
+    def exc_top(self, rng):
+        """an exception carrying mutable state: an input with this value raises it"""
+        ls = rng.sample(['payload', 'handled_by', 'p'], rng.randint(1, 2))
+        return {'k': 'obj:BoxError', 'l': ls, 'c': [self.rand_tree(rng, 1, mutable_top=True) for _ in ls]}
+
     def rand_path(self, rng, tree, prefix=()):
         """a path to a container inside `tree` (by the shape it had when built)"""
         path, t = list(prefix), tree
@@ -291,7 +310,7 @@ class C11(Prop):
             return {'e': 'clear'}
         if kind == 'set':
             return {'e': 'add', 'x': {'tree': self.rand_atom(rng, True)}} if rng.random() < 0.7 else {'e': 'clear'}
-        if kind == 'obj:Box':
+        if kind in ('obj:Box', 'obj:BoxError'):
             return {'e': 'setattr', 'key': {'k': rng.choice(target['l'] + ['extra'])}, 'x': x}
         # tuple / atom at the top: try something that will not apply, or append (no-op)
         return {'e': 'append', 'x': x}
@@ -319,12 +338,28 @@ class C11(Prop):
         # --- the operation body
         for alias in ins:
             # a tuple at the top (e.g. `return ids, options`) is only shallowly immutable: its parts are mutated below
-            t = self.rand_tree(rng, 2, mutable_top=True) if rng.random() < 0.75 else self.tuple_top(rng)
+            c = rng.random()
+            t = self.rand_tree(rng, 2, mutable_top=True) if c < 0.65 else self.tuple_top(rng) if c < 0.85 else self.exc_top(rng)
+            raises = t.get('k') == 'obj:BoxError'
             v = 'x_' + alias
             body.append({'s': 'in', 'alias': alias, 'tree': t, 'var': v})
             shapes[v] = t
             captured.add(v)
-            self.maybe_mut(rng, body, shapes, embedded, v, when_pool=['rec', 'rep', 'both', 'rec'])
+            # (a raised exception is stored as it is, with or without copy-on-interception - the property speaks of values -
+            # so the recorded run leaves it alone; the replayed code is free to mutate what it catches)
+            self.maybe_mut(rng, body, shapes, embedded, v, when_pool=['rep'] if raises else ['rec', 'rep', 'both', 'rec'],
+                           p=0.9 if raises else 0.6)
+            if raises:
+                embedded.add(v)          # never passed on / embedded: it would be stored by reference under a second key
+            if rng.random() < (0.8 if raises else 0.2):
+                # the same input again (same key): while replaying it must be handed a FRESH copy of what is recorded
+                v2 = 'y_' + alias
+                body.append({'s': 'in', 'alias': alias, 'tree': t, 'var': v2})
+                shapes[v2] = t
+                captured.add(v2)
+                self.maybe_mut(rng, body, shapes, embedded, v2, when_pool=['rep'] if raises else ['rec', 'rep', 'both'])
+                if raises:
+                    embedded.add(v2)
         for j in range(rng.randint(0, 2)):
             t = self.rand_tree(rng, 2, mutable_top=True) if rng.random() < 0.75 else self.tuple_top(rng)
             v = 'n%d' % j
@@ -363,7 +398,8 @@ class C11(Prop):
         keys = []
         for st in body:
             if st['s'] == 'in':
-                keys.append((in_key(st['alias']), 'env', st['tree']))
+                if (in_key(st['alias']), 'env', st['tree']) not in keys:
+                    keys.append((in_key(st['alias']), 'env', st['tree']))
             elif st['s'] == 'out':
                 keys.append((out_key(st['alias'], st['n']), 'args', None))
                 keys.append((res_key(st['alias'], st['n']), 'env', st['res']))
@@ -390,9 +426,11 @@ class C11(Prop):
                                                    {'k': 'dict', 'l': ['args', 'kwargs'], 'c': [{'k': 'list', 'l': [], 'c': []}, {'k': 'dict', 'l': [], 'c': []}]})
                 path, target = self.rand_path(rng, shp)
                 drec = rng.choice(recs)
+                if kind == 'env' and shape.get('k') == 'obj:BoxError':
+                    drec = None         # the envelope of a raised input is {'exception': ex}: its top level is not scripted
                 # (not a key the client stored one of ITS objects under: the model compiles `direct` as read a copy /
                 # mutate / put back, which is the same thing only while the client holds no reference to the stored object)
-                if objects and (drec, key) not in aliased:
+                if objects and drec is not None and (drec, key) not in aliased:
                     script.append({'s': 'direct', 'rec': drec, 'key': key, 'path': path,
                                    'edit': self.rand_edit(rng, target, None)})
             if c < 0.2 or not recs:
@@ -403,7 +441,7 @@ class C11(Prop):
                 key, kind, shape = rng.choice(keys)
                 nvar += 1
                 v = 'v%d' % nvar
-                sub = [{'k': 'value'}] if kind == 'env' and rng.random() < 0.7 else []
+                sub = [{'k': 'value'}] if kind == 'env' and (rng.random() < 0.7 or shape.get('k') == 'obj:BoxError') else []
                 script.append({'s': 'get', 'rec': rng.choice(recs), 'key': key, 'via': rng.choice(['get_data', 'getitem']),
                                'sub': sub, 'var': v})
                 shp = shape if (kind == 'raw' or sub) else ({'k': 'dict', 'l': ['value'], 'c': [shape]} if kind == 'env'
@@ -533,7 +571,10 @@ class C11(Prop):
                         s = st['s']
                         if s == 'in':
                             env['build'] = st['tree']
-                            v = getattr(self, 'in_' + st['alias'])()
+                            try:
+                                v = getattr(self, 'in_' + st['alias'])()
+                            except BoxError as ex:      # the input failed; the operation handles (and keeps) the exception
+                                v = ex
                             variables[ns + st['var']] = v
                             if phase == 'rec':
                                 env['snap'][in_key(st['alias'])] = {'k': 'dict', 'l': ['value'], 'c': [from_py(v)]}
@@ -571,7 +612,10 @@ class C11(Prop):
             def mk_in(alias):
                 @tr.intercept_input(alias)
                 def f(self):
-                    return to_py(env['build'])
+                    v = to_py(env['build'])
+                    if isinstance(v, BoxError):
+                        raise v
+                    return v
                 return f
 
             def mk_out(alias):
@@ -615,7 +659,7 @@ class C11(Prop):
                         variables[st['var']] = v
                     emit(['get', st['rec'], st['key'], 'sub' if st['sub'] else 'whole',
                           'overwritten' if (id(rec), st['key']) in setkeys else 'stored'],
-                         from_py(v) if ok else '<none>')
+                         norm_env(from_py(v)) if ok else '<none>')
                 elif s == 'meta':
                     m = recs[st['rec']].get_metadata()
                     whole = from_py(user_metadata(m))
@@ -642,7 +686,7 @@ class C11(Prop):
                         emit(['mut', 'direct'], False)
                         continue
                     emit(['get', st['rec'], st['key'], 'whole',
-                          'overwritten' if (id(rec), st['key']) in setkeys else 'stored'], from_py(stored))
+                          'overwritten' if (id(rec), st['key']) in setkeys else 'stored'], norm_env(from_py(stored)))
                     variables['$direct'] = stored
                     emit(['mut', 'direct'], apply_edit(variables, {'var': '$direct', 'path': st['path'], 'edit': st['edit']}))
                     setkeys.add((id(rec), st['key']))
